@@ -162,10 +162,9 @@ void exec_c14(const Plan& p, Ctx& ctx) {
                 c.send_all(hdr, 16);
                 std::vector<std::uint8_t> extra(static_cast<std::size_t>(op.at(1)), 0x99);
                 if (!extra.empty()) c.send_all(extra.data(), extra.size());
-                c.set_timeout(10000);
-                std::uint8_t b;
-                const ssize_t r = ::recv(c.fd, &b, 1, 0);
-                closed = r == 0 || (r < 0 && errno == ECONNRESET);
+                auto state = c.rx;
+                sk::wait_until([state] { return state->closed; }, 10 * kSec);
+                closed = state->closed;
                 c.close_now();
             }, 60 * kSec);
             peer.shutdown();
